@@ -134,7 +134,7 @@ def main(spec, argv):
         core.build_driver()
         # 3. implementation from the current tree
         for c in spec.configs:
-            ctx['bins'][c] = core.build_harness(c, spec.profile)
+            ctx['bins'][c] = core.build_harness(c)
 
         if replay:
             rp = json.load(open(replay))
